@@ -122,7 +122,9 @@ def invalid_component_sets(res):
 # direct driving of Simulator / Market / IndexMarket: evaluations interleaved with clock advances, trades,
 # a component added later and outstanding shares revised (not reachable through a runner configuration)
 
-D_OPS = [("eval",), ("adv",), ("add",), ("shares", 0, 5), ("shares", 1, 1), ("trade", 0, 104.0), ("trade", 1, 96.0), ("trade", 2, 108.0)]
+D_OPS = [("eval",), ("adv",), ("add",), ("shares", 0, 5), ("shares", 1, 1), ("trade", 0, 104.0), ("trade", 1, 96.0), ("trade", 2, 108.0),
+         # resting quotes: a never-traded component's market price follows its mid price, which moves without any fill
+         ("quote", 0, 98.0, 106.0), ("quote", 1, 94.0, 100.0), ("bid", 0, 102.0)]
 
 
 class DWorld:
@@ -182,6 +184,21 @@ class DWorld:
             m._add_order(self.Order(0, m.market_id, True, self.LIMIT, 1, price=op[2]))
             m._add_order(self.Order(0, m.market_id, False, self.LIMIT, 1, price=op[2]))
             m._execution()
+        elif k == "quote":
+            m = self.ms[op[1]]
+            if m.get_best_buy_price() is not None or m.get_best_sell_price() is not None:
+                return False
+            m._add_order(self.Order(0, m.market_id, True, self.LIMIT, 1, price=op[2]))
+            m._add_order(self.Order(0, m.market_id, False, self.LIMIT, 1, price=op[3]))
+            m._execution()
+            self.wit.inc("component_quoted_without_trade")
+        elif k == "bid":
+            m = self.ms[op[1]]
+            a = m.get_best_sell_price()
+            if a is None or a <= op[2] or m.get_best_buy_price() == op[2]:
+                return False
+            m._add_order(self.Order(0, m.market_id, True, self.LIMIT, 1, price=op[2]))
+            m._execution()
         self.check()
         return True
 
@@ -202,7 +219,8 @@ class DWorld:
     def canon(self):
         idx = self.idx
         t = idx.get_time()
-        return (t, self.added, tuple(m.outstanding_shares for m in self.ms), tuple(tuple(m.get_market_prices()) for m in self.ms))
+        return (t, self.added, tuple(m.outstanding_shares for m in self.ms), tuple(tuple(m.get_market_prices()) for m in self.ms),
+                tuple((m.get_best_buy_price(), m.get_best_sell_price()) for m in self.ms))
 
 
 def direct_search(res, depth):
